@@ -176,8 +176,6 @@ def apply_together(problem, state, effs):
         distinct = any(v != vals[0] for v in vals)
         if len(owners[key]) > 1 and not distinct:
             raise Ambiguous("two different actions assign one value to one fluent at the same instant")
-        if len(vals) > 1 and not distinct and not key[0].type.is_bool_type():
-            raise Ambiguous("one action assigns one value twice")
         if key[0].type.is_bool_type() and len(owners[key]) == 1:
             new[key] = any(vals)
         elif distinct:
